@@ -1685,3 +1685,29 @@ func (p *Program) Owners(fn *ssa.Function) []string {
 	sort.Strings(out)
 	return out
 }
+
+// OwnerFns: like Owners, as functions.
+func (p *Program) OwnerFns(fn *ssa.Function) []*ssa.Function {
+	set := map[*ssa.Function]bool{}
+	var walk func(f *ssa.Function, d int)
+	walk = func(f *ssa.Function, d int) {
+		f = rootFn(f)
+		if d < 6 && p.Absorbed(f) {
+			for _, s := range p.inl.callers[f] {
+				if s.Caller.Synthetic != "" {
+					continue
+				}
+				walk(s.Caller, d+1)
+			}
+			return
+		}
+		set[f] = true
+	}
+	walk(fn, 0)
+	var out []*ssa.Function
+	for f := range set {
+		out = append(out, f)
+	}
+	sort.Slice(out, func(i, j int) bool { return funcName(out[i]) < funcName(out[j]) })
+	return out
+}
